@@ -21,7 +21,7 @@
    Proved for EVERY string: what is accepted is a valid literal ([C15_text_accepts_only_literals]) and the
    contrapositives.  That the timestamp carries the fields the literal denotes is proved for literals with at
    most eight fraction digits ([C15_text_accepts_only_valid_partial]; [frac_digits s] = the digit characters
-   from the twenty-first character on); for nine digits or more (roundFractionalSeconds) it is open. *)
+   from the twenty-first character on); for nine digits or more (roundFractionalSeconds) see Props/C15reject2.v, which proves it for every accepted string. *)
 From Coq Require Import List NArith ZArith String.
 From IonV Require Import Base.Wire Num.Calendar Num.Timestamp Num.TimestampJ.
 From IonV Require Text.SpellTs.
